@@ -310,4 +310,43 @@ example : detCrowding (fun _ => true) [ia, ib, ic] 2 = none ∧
 
 end examples
 
+
+/-! ## the value `__call__` returns: the first `target` slots -/
+
+/-- exactly the target: `GeneralizedCrowding.__call__` returns `target_population_size` individuals -/
+theorem crowd_call_size (closer : Nat → Bool) (population : List Sel.Indv) (target : Nat) (out : List Sel.Indv)
+    (h : Sel.detCrowdingCall closer population target = some out) : out.length = target := by
+  unfold Sel.detCrowdingCall at h
+  cases hd : Sel.detCrowding closer population target with
+  | none => simp [hd] at h
+  | some full =>
+    simp [hd] at h
+    have hs := (crowd_size (closer := closer) (population := population) (target := target)).1.mp (by simp [hd])
+    have hl := (crowd_size (closer := closer) (population := population) (target := target)).2 full hd
+    subst h
+    simp [List.length_take]
+    omega
+
+/-- the returned slots are the decided slots of `detCrowding` -/
+theorem crowd_call_slots (closer : Nat → Bool) (population : List Sel.Indv) (target : Nat) (out full : List Sel.Indv)
+    (hf : Sel.detCrowding closer population target = some full)
+    (h : Sel.detCrowdingCall closer population target = some out) :
+    ∀ j, j < target → out[j]? = full[j]? := by
+  unfold Sel.detCrowdingCall at h
+  simp [hf] at h
+  subst h
+  intro j hj
+  simp [hj]
+
+/-- with the target the evolutionary algorithm passes (half of the combined population) nothing is cut off -/
+theorem crowd_call_eq_of_half (closer : Nat → Bool) (population : List Sel.Indv) (target : Nat)
+    (ht : target = population.length / 2) :
+    Sel.detCrowdingCall closer population target = Sel.detCrowding closer population target := by
+  unfold Sel.detCrowdingCall
+  cases hd : Sel.detCrowding closer population target with
+  | none => rfl
+  | some full =>
+    have hl := (crowd_size (closer := closer) (population := population) (target := target)).2 full hd
+    simp [List.take_of_length_le (by omega : full.length ≤ target)]
+
 end Bingo.C08
